@@ -129,6 +129,11 @@ fn enc_int(n: i128, out: &mut Vec<u8>) {
     }
 }
 
+/// Lower bound (inclusive) of the CBOR integer range as `f64`: -2^64.
+const INT_MIN_F: f64 = -18_446_744_073_709_551_616.0;
+/// Upper bound (exclusive) of the CBOR integer range as `f64`: 2^64.
+const INT_END_F: f64 = 18_446_744_073_709_551_616.0;
+
 fn enc_float(f: f64, out: &mut Vec<u8>) {
     if f.is_nan() {
         let h = f16::NAN;
@@ -145,11 +150,9 @@ fn enc_float(f: f64, out: &mut Vec<u8>) {
         return;
     }
     if f.fract() == 0.0 {
-        // i128 range: approximately ±1.7e38; f64 can represent up to ±1.8e308
-        // Check range before casting to avoid overflow/UB
-        const I128_MAX_F: f64 = i128::MAX as f64;
-        const I128_MIN_F: f64 = i128::MIN as f64;
-        if (I128_MIN_F..=I128_MAX_F).contains(&f) {
+        // CBOR integers (major types 0/1) cover -2^64..2^64 only; integral floats
+        // outside that range stay floats (write_major would truncate them).
+        if (INT_MIN_F..INT_END_F).contains(&f) {
             let i = f as i128;
             if i as f64 == f {
                 enc_int(i, out);
@@ -402,6 +405,9 @@ fn is_exact_int(f: f64) -> bool {
         return false;
     }
     if f.fract() != 0.0 {
+        return false;
+    }
+    if !(INT_MIN_F..INT_END_F).contains(&f) {
         return false;
     }
     let i = f as i128;
